@@ -52,33 +52,44 @@ impl<'a> PathBuilder<'a> {
 }
 
 fn match_path_segments(segments: &[&str], old_segments: &[PathSegment]) -> Option<HashSet<usize>> {
-    // This hurt my eyes
-
-    let mut optionals = HashSet::new();
-
-    let mut segments_iter = old_segments.iter().enumerate();
-    'outer: for seg in segments {
-        'inner: loop {
-            let (index, next_seg) = segments_iter.next()?;
-
-            match next_seg {
-                PathSegment::Unit => continue 'inner,
-                PathSegment::Param(_) => continue 'outer,
-                PathSegment::OptionalParam(to_match) if to_match == seg => {
-                    optionals.insert(index);
-                    continue 'outer;
-                }
-                PathSegment::OptionalParam(_) => continue 'inner,
-                PathSegment::Static(to_match) if to_match.is_empty() => continue 'inner,
-                PathSegment::Static(to_match) if to_match == seg => continue 'outer,
-                PathSegment::Static(_) => return None,
-                PathSegment::Splat(_) => return Some(optionals),
+    // an optional param is present if the rest of the route still match with it consuming a segment,
+    // `optionals` ends up with the indexes of the optional params that are present.
+    fn inner(
+        segments: &[&str],
+        old_segments: &[PathSegment],
+        index: usize,
+        optionals: &mut HashSet<usize>,
+    ) -> bool {
+        let Some((next_seg, old_rest)) = old_segments.split_first() else {
+            // if both are empty, perfect match !
+            return segments.is_empty();
+        };
+        match (next_seg, segments.split_first()) {
+            (PathSegment::Unit, _) => inner(segments, old_rest, index + 1, optionals),
+            (PathSegment::Static(to_match), _) if to_match.is_empty() => {
+                inner(segments, old_rest, index + 1, optionals)
             }
+            (PathSegment::Splat(_), _) => true,
+            (PathSegment::OptionalParam(_), first) => {
+                if let Some((_, rest)) = first {
+                    if inner(rest, old_rest, index + 1, optionals) {
+                        optionals.insert(index);
+                        return true;
+                    }
+                }
+                inner(segments, old_rest, index + 1, optionals)
+            }
+            (PathSegment::Param(_), Some((_, rest))) => inner(rest, old_rest, index + 1, optionals),
+            (PathSegment::Static(to_match), Some((seg, rest))) if to_match == seg => {
+                inner(rest, old_rest, index + 1, optionals)
+            }
+            _ => false,
         }
     }
 
-    // if iter is empty, perfect match !
-    segments_iter.next().is_none().then_some(optionals)
+    let mut optionals = HashSet::new();
+
+    inner(segments, old_segments, 0, &mut optionals).then_some(optionals)
 }
 
 /// Remove the base path from the start of a path, whatever the slashes around them (`"foo"`, `"/foo"`, `"foo/"`, `"/foo/"`),
